@@ -4,8 +4,8 @@ P=$1; V=$2; SRC=${SEED3_SRC:-/tmp/seed3/out}/$P/$V
 W=$(mktemp -d /tmp/sv3-XXXX); rmdir $W
 git -C /repo worktree add --detach $W HEAD -q
 if ! git -C $W apply $SRC/patch.diff; then echo "RESULT $P/$V NOAPPLY"; git -C /repo worktree remove --force $W; exit; fi
-/venv/bin/python $SRC/demo.py /repo >/dev/null 2>&1; d0=$?
-/venv/bin/python $SRC/demo.py $W >/dev/null 2>&1; d1=$?
+(cd /tmp && /venv/bin/python $SRC/demo.py /repo >/dev/null 2>&1); d0=$?
+(cd /tmp && /venv/bin/python $SRC/demo.py $W >/dev/null 2>&1); d1=$?
 /venv/bin/python /verif/tools/run_baseline.py $W >/dev/null 2>&1; b=$?
 out=$(cd /verif && VERIF_REPO=$W VERIF_JOBS=${VERIF_JOBS:-6} ./check $P --no-evidence 2>&1)
 rc=$?
